@@ -18,7 +18,9 @@ EXPLANATION = (
     "second-order cone routine applies the scalar-part cap min(alpha_max, -x0/y0) before every return, including the "
     "three early exits of the root computation; (R7) in the degenerate case a == 0 the single root -c/b limits the step when "
     "b < 0 (finding F6, fixed); (R8) the power cone's membership tests used by the backtracking search are even in the "
-    "third coordinate (the cone is symmetric under s3 -> -s3), as are its barrier, gradient and Hessian parities.")
+    "third coordinate (the cone is symmetric under s3 -> -s3), as are its barrier, gradient and Hessian parities; (R9) membership "
+    "tests hold the sign conditions of the cone; (R10) the margins that drive the initial shift are the documented functions "
+    "(SOC: z0 - |z[1..]| over the whole tail).")
 ASSUMPTIONS = [
     'rustc MIR construction and trait resolution are correct',
     'alpha_max >= 0; 0 <= linesearch_backtrack_step <= 1 (settings are not validated by the crate)',
@@ -40,3 +42,4 @@ def run(ctx, rep, tier):
         steplen.soc_linear_case(rep, F, tag, 'C15.R7')
         c14.reflection_symmetry(rep, F, E, tag, 'C15.R8')
         c14.membership_guards(rep, F, tag, 'C15.R9')
+        steplen.margins_definitions(rep, F, E, tag, 'C15.R10')
